@@ -349,6 +349,19 @@ def check(tier):
         r = max_munch(doc, dlab, C.codepoints(t) + [10])
         if not same_obs(o, r):
             ref_disagree.append((t, o, r))
+    # ---- text that is no text: a malformed UTF-8 byte is "not a token" wherever it stands - after a token, inside one, inside a
+    #      comment, a string or a pattern - and must be reported at its position (the prefixes are viable beginnings of a specification)
+    byte_bad = []
+    BYTE_CASES = [(b'grammar g; abc', b'\xff', b'def = "x";'), (b'grammar g; abc ', b'\xff', b'def = "x";'), (b'grammar g // caf', b'\xe9', b'\nab = "x";'),
+                  (b'grammar g;\nab = "x', b'\xff', b'";'), (b'grammar g;\nab = /x', b'\x80', b'/;'), (b'grammar g;\nab', b'\xc3', b' = "x";'),
+                  (b'grammar g; /* c ', b'\xf0\x9f', b' */ ab = "x";'), (b'grammar g;\nab = "x"', b'\xe9', b'\ncd = "y";')]
+    for pre, bad_, post in BYTE_CASES:
+        rb = hook.call({"op": "parse_bytes", "text_hex": (pre + bad_ + post).hex()})
+        msg = (rb.get("error") or {}).get("message", "")
+        ptxt = pre.decode("utf-8")
+        want = "f:%d:%d: invalid utf-8 character" % (ptxt.count("\n") + 1, len(ptxt) - (ptxt.rfind("\n") + 1) + 1)
+        if want not in msg:
+            byte_bad.append(((pre + bad_ + post), msg, want))
     hook.close()
     badidx, out = run_cases("cases_C05", texts, observations)
     rep.cov["evaluations"] = len(texts)
@@ -363,6 +376,10 @@ def check(tier):
         badidx = []
     else:
         rep.obligation("correspondence: NextToken == MaxMunch.tokens go_dfa on %d texts" % len(texts), not badidx)
+    rep.obligation("a malformed byte is reported where it stands (%d placements: after and inside a token, a comment, a string, a pattern)" % len(BYTE_CASES), not byte_bad)
+    for data, msg, want in byte_bad[:2]:
+        rep.failure("malformed-byte", {"malformed-byte"}, {"input_bytes_hex": data.hex(), "input_text_latin1": data.decode("latin-1"), "message": msg[:300],
+                                                           "why": "expected " + want})
 
     # ---- verdicts
     reported = set()
